@@ -214,6 +214,46 @@ def run(ctx, rep):
             rep.fail("corr", "emit-reordered", inp, {"impl": f, "model": m})
             break
 
+    # ---- through the device object (Device._send_command), with DEBUG logging to a formatting handler on and off: what reaches the
+    # transport is accepted by the reference parser and numbered consecutively
+    import io
+    import logging
+    import acdev as D
+    import acresp as A
+    Cm, AC = D.mods()
+    for debug in (False, True):
+        lg = logging.getLogger("msmart")
+        old_level, handler = lg.level, logging.StreamHandler(io.StringIO())
+        handler.setFormatter(logging.Formatter("%(asctime)s %(name)s %(message)s"))
+        if debug:
+            lg.addHandler(handler); lg.setLevel(logging.DEBUG); logging.disable(logging.NOTSET)   # the harness runs with logging disabled
+        try:
+            Cm.Command._message_id = start = rng.randrange(256)
+            dev = AC(ip="10.0.0.1", device_id=123456, port=6444)
+            wire = []
+
+            async def fake_send(data, retries=3, wire=wire):
+                wire.append(list(data))
+                return [bytes(A.mk_frame(A.state_body(rng, n=24)))]
+            dev._lan.send = fake_send
+            ops = [rng.choice([(1, 0), (2, 0), (3, 0), (4, 0), (11, 1), (12, 40)]) for _ in range(ctx.n(60, 400))]
+            for op, a in ops:
+                try:
+                    D.do_op(dev, AC, Cm, op, a)
+                except Exception:  # noqa: BLE001
+                    pass
+        finally:
+            if debug:
+                lg.removeHandler(handler); lg.setLevel(old_level); logging.disable(logging.CRITICAL)
+        ao = ctx.model.batch([(F_ACCEPT, [[f[9]], f]) for f in wire])
+        for k, (f, a) in enumerate(zip(wire, ao)):
+            rep.case(("device-seq", debug, k % 256, tuple(f)), "device-sequence" + ("-debug-logging" if debug else ""))
+            if not a[1][0][0] or a[1][1][0] != (start + 1 + k) % 256:
+                rep.fail("oracle", "sequence-id:device-level" if a[1][0][0] else "frame-rejected-by-reference-parser:device-level",
+                         {"start": start, "index_on_wire": k, "debug_logging_enabled": debug, "ops": ops[:12]},
+                         {"frame": bytes(f).hex(), "accepted": a[1][0][0], "id": a[1][1][0], "expected": (start + 1 + k) % 256})
+                break
+
 
 def in_domain(C, kind, p):
     """The documented parameter domain on which a frame must be produced (C12_total's hypotheses)."""
